@@ -59,7 +59,7 @@ def generate(rng, tier, ctx):
         mod = importlib.import_module('gen.' + g)
         sub = Rng(rng.randint(0, 1 << 30))
         byop = {}
-        for line, tag in mod.generate(sub, 'quick', ctx):
+        for line, tag in ((c[0], c[1]) for c in mod.generate(sub, 'quick', ctx)):
             op = line.split(' ', 1)[0]
             if op in names and len(line) < 30000: byop.setdefault(op, []).append(line)
         for op, ls in byop.items():
